@@ -5,7 +5,7 @@ from __future__ import annotations
 import ast
 import os
 
-REPO = "/repo"
+REPO = os.environ.get("VERIF_REPO", "/repo")        # scratch trees for seeded-change experiments only; registered commands never set it
 DOC_ROOTS = ["symplyphysics/laws", "symplyphysics/definitions", "symplyphysics/conditions"]
 
 
